@@ -124,20 +124,20 @@ func (p *Path) vpIntrinsic(caller *frame, fn *ssa.Function, name string, args []
 	case "vp_Catch":
 		// runs f, returns whether it panicked
 		var panicked bool
+		d0, f0 := p.depth, len(p.fnStack)
 		func() {
 			defer func() {
 				if r := recover(); r != nil {
 					if tp, ok := r.(targetPanic); ok {
 						panicked = true
 						p.lastPanic = tp.msg
+						p.depth, p.fnStack = d0, p.fnStack[:f0]
 						return
 					}
 					panic(r)
 				}
 			}()
-			d0 := p.depth
 			p.call(caller, token.NoPos, args[0], nil)
-			p.depth = d0
 		}()
 		if panicked {
 			// mutexes held by the unwound frames stay as they are, as in Go
